@@ -16,7 +16,7 @@ from collections import Counter
 
 from simkit import core, env
 from checks.c11_disk import SimFile, RawWriter, RawReader, SimClock, SimCrash, NoProgress
-from checks.c11_records import (gen_record_spec, build_record, record_view, first_diff, diff_field, Unbuildable, FILES)
+from checks.c11_records import (gen_record_spec, build_record, record_view, first_diff, diff_field, Unbuildable, FILES, view_features)
 
 PROP = 'C11'
 FORMATS = {
@@ -943,6 +943,9 @@ def _execute(trace, probes, scratch):
                 if d:
                     raise Violation(f'roundtrip-mismatch:{diff_field(d)}', f'{fmt} record {i}: {d}')
             probes['roundtrips_equal'] += len(views)
+            for e in expected:
+                for ft in view_features(e):
+                    probes['roundtripped:' + ft] += 1
             for e in expected:
                 for mv in ([e] if e.get('kind') == 'mol' else e['r'] + e['p'] + e['a']):
                     st = mv.get('stereo')
